@@ -103,6 +103,9 @@ func (e *enc) newFx(fn *ssa.Function, depth int) *fx {
 			if d, ok := in.(*ssa.DebugRef); ok {
 				x.dbgRefs = append(x.dbgRefs, d)
 				if id, ok := d.Expr.(*ast.Ident); ok && !d.IsAddr {
+					if v, isVar := d.Object().(*types.Var); isVar && v.IsField() {
+						continue
+					}
 					if _, have := x.dbg[d.X]; !have {
 						x.dbg[d.X] = id.Name
 					}
